@@ -13,7 +13,9 @@ PROPS["C15"] = dict(
                "drawn independently of the earlier rounds (ROUTE-REFRESH for all families at once or one family at a time, soft out / in / both, one peer or "
                "all); half of the later rounds take the previous round's change back (relax <-> tighten the same set / assignment / policy), so that routes "
                "first advertised by one kind of trigger must be withdrawn by another; after EVERY round all views are compared with a fresh daemon that had "
-               "that round's program from the start. One case in nine is such a history on a VRF TOPOLOGY: 1-3 CE neighbours configured in VRFs red/blue "
+               "that round's program from the start. In half of these histories one ordinary eBGP neighbour is an ADD-PATH-send target (send-max 4 >= number of "
+               "sources, speaker announces ADD-PATH receive; its wire view is compared by (prefix, attributes), policy changes are export-only there), so a "
+               "reset has to withdraw some paths of a prefix and keep others. One case in nine is such a history on a VRF TOPOLOGY: 1-3 CE neighbours configured in VRFs red/blue "
                "(IPv4 sessions) next to 1-2 PE neighbours (VPNv4 sessions) whose routes use the same IP prefixes under several route distinguishers, "
                "importable into a VRF by route target or not (for one prefix at most one RD per VRF, gobgp has no per-VRF best path); triggers are "
                "ROUTE-REFRESH from a CE (IPv4) or PE (VPNv4) and soft out/in/both; the VRF tables are compared as well. Exploration: (P1, P2.., routes, "
@@ -44,6 +46,7 @@ PROPS["C15"] = dict(
     must_count=["nontrivial_pairs", "pairs_equal", "repeat_checks", "racing_cases", "routes_compared",
                 "vrf_histories", "vrf_rounds_equal", "vrf_nontrivial_rounds", "vrf_round_reset_route-refresh_all", "vrf_round_reset_route-refresh_one",
                 "vrf_round_reset_soft-out_all", "vrf_round_reset_soft-out_one", "vrf_round_reset_soft-in_all", "vrf_round_reset_soft-both_all",
+                "rounds_with_addpath_target", "rounds_addpath_target_soft-out", "rounds_addpath_target_soft-both", "rounds_addpath_target_route-refresh",
                 "histories", "rounds_equal", "nontrivial_rounds", "rounds_taking_previous_change_back", "rounds_refresh_per_family",
                 "round_soft-out_after_route-refresh", "round_route-refresh_after_route-refresh", "round_route-refresh_after_soft-out",
                 "round_soft-both_after_route-refresh", "round_soft-in_after_soft-out", "round_soft-out_after_soft-in",
